@@ -98,8 +98,8 @@ Print Assumptions list_tuple_dict_consistent.
 (* booleans: exactly the eight spellings, in any letter case (on the table regenerated from the source) *)
 Theorem bool_eight_spellings : forall v,
   (forall b, val_bool v = Ok b <->
-             In (lower v, b) [("0", false); ("1", true); ("false", false); ("true", true);
-                              ("no", false); ("yes", true); ("off", false); ("on", true)]) /\
+             In (lower v, b) [("0", false); ("1", true); ("false", false); ("no", false);
+                              ("off", false); ("on", true); ("true", true); ("yes", true)]) /\
   ((forall b, ~ In (lower v, b) eight) -> val_bool v = Err ErrValue).
 Proof. intros v. split; [intros b; exact (bool_spec v b)|exact (bool_other v)]. Qed.
 Print Assumptions bool_eight_spellings.
